@@ -172,6 +172,13 @@ def _generation(ctx, repo) -> None:
 
 def check(ctx) -> None:
     repo = ctx.repo
+    ctx.rule("C23.escape", "WHO-MAY: no read of a libcst string node's raw_value (escape sequences unprocessed) where the value of a literal is needed; expected count zero, detector self-checked on a synthetic positive", floor=1)
+    from sa.engine.prop import raw_string_value_reads, raw_string_value_selfcheck
+    if not raw_string_value_selfcheck():
+        raise AnalysisError("C23.escape: the raw_value detector does not match its own positive example")
+    ctx.ok("C23.escape", None, "detector matches the synthetic positive example")
+    for _mod, _n in raw_string_value_reads(ctx.repo, ("pynguin.testcase.literalgen", "pynguin.testcase.localsearchstatement", "pynguin.testcase.localsearch", "pynguin.utils.pynguinml", "pynguin.testcase.testfactory")):
+        ctx.fail("C23.escape", _n, f"{_mod.name}: `{norm(_n)}` reads the source text between the quotes, escape sequences unprocessed, as the value of a string literal: mutation / local search would work on the escaped source text: one mutation of 'a\\nb' changes several characters of the value, the damage compounds", stmt=f"[raw_value] {norm(_n)}")
     ctx.rule("C23.ml-mutate", "ABSINT: MLTestFactory._mutated_ml_expr for tuple / list / nested ndarray payloads, scalars and allowed values (numeric mutation stubbed) renders a literal that evaluates to the mutated value in the structure the statement is bound to", floor=5)
     _ml_mutation(ctx, repo)
     ctx.rule("C23.generate", "ABSINT: generate_literal for every requested type under configurations with sizes 0 / 1 / default and scripted draws (lowest, highest, seeded) yields, without raising, valid tokens that evaluate to a value of the requested type within the configured maximum size", floor=90)
@@ -267,6 +274,30 @@ def check(ctx) -> None:
         elems = out.fields.get("elements") if isinstance(out, peval.Term) else None
         ok = isinstance(out, peval.Term) and out.name.endswith("Tuple") and (bool(elems) or (bool(out.fields.get("lpar")) and bool(out.fields.get("rpar"))))
         ctx.check("C23.generate", mt, ok, f"{label}: the result has {len(elems or [])} element(s) and no parentheses - libcst rejects it (`A zero-length tuple must be wrapped in parentheses`), mutating the seeded test crashes", what=f"{label}: still a valid tuple literal", stmt=f"[bare tuple] {n_elems}")
+
+    # the write half of local search: set_literal_value hands the rendering of EVERY value on (no value is refused)
+    LSS = "pynguin.testcase.localsearchstatement"
+    slv = repo.try_func(LSS, "set_literal_value") if repo.has_module(LSS) else None
+    if slv is None:
+        raise AnalysisError("anchor vanished: localsearchstatement.set_literal_value")
+    ctx.analysed(slv)
+    lmod = repo.module(LSS)
+    for v in [*FLOATS, *PRIMS]:
+        label = f"write {type(v).__name__} {_short(v)}"
+        written = []
+        it = peval.Interp(resolver=resolver, ctor_prefixes=("cst.",), max_steps=400000, externs={"_replace_rhs": lambda tcase, pos, expr, written=written: (written.append(expr), True)[1]})
+        try:
+            ret = it.run_function(slv, [peval.Obj("test_case"), 0, v], {}, lmod)
+        except (peval.Undecided, peval.Raises) as exc:
+            ctx.undecide("C23.parse", slv, f"{label}: {exc}")
+            continue
+        okw = ret is True and len(written) == 1
+        if okw:
+            try:
+                okw = same(v, cstterm.safe_eval(cstterm.render(written[0]), {}))
+            except Exception:  # noqa: BLE001
+                okw = False
+        ctx.check("C23.parse", slv, okw, f"{label}: set_literal_value returns {ret!r} after {len(written)} write(s): the statement keeps its old literal (every caller ignores the result), local search silently works on another value", what=f"{label}: written", stmt=f"[write] {label}")
 
     # ------------------------------------------------------------------ C23.ml-twin
     if repo.has_module(ML):
